@@ -37,9 +37,68 @@ def run_check(prop, repo, tier, scale, extra=()):
   return p.returncode, p.stdout, time.time() - t0
 
 
+def determinism(args):
+  """Every run seed of a check executed twice: 16 workers / PYTHONHASHSEED=0 vs
+  3 workers / PYTHONHASHSEED=12345 (fresh interpreters); digests must agree."""
+  props = [args.prop] if args.prop else ['C14', 'C07', 'C11', 'C19']
+  bad = 0
+  for prop in props:
+    d = tempfile.mkdtemp(prefix='dsim-det-')
+    try:
+      outs = []
+      for tag, workers, hs in (('a', 16, '0'), ('b', 3, '12345')):
+        f = os.path.join(d, f'{tag}.json')
+        cmd = ['/venv/bin/python', os.path.join(HERE, 'cli.py'), prop, '--tier', args.tier,
+               '--no-evidence', '--no-selftest', '--runs-scale', str(args.scale),
+               '--workers', str(workers), '--hashseed', hs, '--dump-digests', f]
+        if args.legs:
+          cmd += ['--legs', args.legs]
+        env = dict(os.environ)
+        env['DSIM_REPLAY_DIR'] = os.path.join(d, 'replays')
+        p = subprocess.run(cmd, capture_output=True, text=True, env=env)
+        if p.returncode != 0:
+          print(prop, tag, 'exit', p.returncode, p.stdout[-800:])
+        outs.append(json.load(open(f)))
+      a, b = outs
+      keys = sorted(set(a) | set(b))
+      diff = [k for k in keys if a.get(k) != b.get(k)]
+      bad += len(diff)
+      print(f'{prop}: {len(keys)} run seeds executed twice, {len(diff)} digest mismatches {diff[:5]}',
+            flush=True)
+    finally:
+      shutil.rmtree(d, ignore_errors=True)
+  return 1 if bad else 0
+
+
+def drop_selftest():
+  """A dropped message must be reported as DEADLOCK (S-LIVE) by the simulator."""
+  code = '''
+import sys, random
+sys.path.insert(0, %r)
+import jax; jax.config.update("jax_enable_x64", True)
+from dsim import spmd_engine as S, spmd, kernel
+rng = random.Random(7)
+hits = 0
+for i in range(6):
+  cfg = S.draw_config(rng, {"p_model": 0.0, "max_devices": 8})
+  cfg["mesh"] = [1, 2, 2] if i %% 2 else [2, 4, 1]
+  ops = [{"op": "to_nodal", "ds": i, "field": "3d", "levels": 4}]
+  faults = dict(spmd.DEFAULT_FAULTS); faults["p_drop"] = 0.2
+  log, viols, agg, _ = S.execute(cfg, ops, faults, [i])
+  hits += any(v["oracle"] == "S-LIVE" and "DEADLOCK" in v["message"] for v in viols)
+print("deadlock detected in", hits, "of 6 runs with dropped messages")
+sys.exit(0 if hits >= 4 else 1)
+''' % VERIF
+  env = dict(os.environ)
+  env['JAX_PLATFORMS'] = 'cpu'
+  p = subprocess.run(['/venv/bin/python', '-c', code], capture_output=True, text=True, env=env)
+  print(p.stdout[-600:], p.stderr[-600:] if p.returncode else '')
+  return p.returncode
+
+
 def main():
   ap = argparse.ArgumentParser()
-  ap.add_argument('cmd', choices=['mutants', 'seeded'])
+  ap.add_argument('cmd', choices=['mutants', 'seeded', 'determinism', 'drop'])
   ap.add_argument('--prop', default='')
   ap.add_argument('--only', default='')
   ap.add_argument('--tier', default='quick')
@@ -48,6 +107,10 @@ def main():
   args = ap.parse_args()
   extra = ['--legs', args.legs] if args.legs else []
   results = []
+  if args.cmd == 'determinism':
+    return determinism(args)
+  if args.cmd == 'drop':
+    return drop_selftest()
   if args.cmd == 'mutants':
     from mutants import defs
     todo = [m for m in defs.M if (not args.prop or m['property'] == args.prop)
@@ -110,4 +173,4 @@ def main():
 
 
 if __name__ == '__main__':
-  main()
+  sys.exit(main() or 0)
